@@ -11,7 +11,8 @@ THEOREMS = {
         "bf_pipe_refines", "bf_counter_inv", "bf_no_early_exit", "bf_exactly_once", "bf_measure", "bf_terminates", "bf_reaches_return",
         "bf_live_ctx_error_recorded", "bf_error_cancels", "bf_return_joins_workers", "bf_return_no_goroutine_left",
         "limit_skip_window", "range_partition_exact", "seq_helper_eq_spec", "traversePaths_eq_spec", "terminals_eq_spec",
-        "acyclicNodes_eq_spec", "acyclicNodes_reachable_spec", "intermediaryPaths_eq_spec", "traversePaths_order_eq_spec", "paths_fit_finite", "c17_seq_paths",
+        "acyclicNodes_eq_spec", "acyclicNodes_reachable_spec", "terminals_reachable_spec", "terminals_not_only_sinks",
+        "intermediaryPaths_eq_spec", "traversePaths_order_eq_spec", "paths_fit_finite", "c17_seq_paths",
         "c17_partial", "c17_full",
         # theorems about the protocol BEFORE the repair of finding F14 (cfg.fixed = false)
         "bf_terminates_partial_old", "bf_terminates_refuted_old", "c17_full_old_refuted"]],
@@ -80,9 +81,12 @@ CLAUSES = {
         "skip/limit window of the filtered DFS candidate sequence, all graphs/filters/skip/limit. For AcyclicTraverseNodes the candidate set has an independent "
         "characterisation: acyclicNodes_reachable_spec — a node is a candidate iff the node filter accepts it and it is a successor of a node reachable from the root "
         "(so without skip/limit the result is exactly the accepted reachable node set). HYPOTHESES: no user DescentFilter; the tracker-free DFS has emptied its stack "
-        "within the fuel (true on finite graphs; the tie reports model-out-of-fuel otherwise). For AcyclicTraverseTerminals the candidate sequence is defined only "
-        "by the tracker-free DFS with the visited bitmap (the helper's 'terminal' includes re-reached nodes): no independent characterisation, searched only "
-        "(c17seq monitor + model comparison on cycles, diamonds, self loops, six id alphabets)",
+        "within the fuel (true on finite graphs; the tie reports model-out-of-fuel otherwise). For AcyclicTraverseTerminals the result also has an independent, "
+        "ORDER-FREE characterisation: terminals_reachable_spec — with indeg(v) = number of edges into v out of nodes reachable from the root (with multiplicity), v is "
+        "reported iff (v is the root and indeg >= 1) or (v is not the root and (indeg >= 2, i.e. it is reached again after it was expanded, or indeg >= 1 and v has no "
+        "successor)). HYPOTHESES: no user DescentFilter, no PathFilter, DFS finished within the fuel. So 'terminal = reachable node without successor' holds exactly on "
+        "graphs where every node is reached over at most one edge; it is false already on DAGs: terminals_not_only_sinks (diamond: the join node is reported although it "
+        "has a successor) — that is the code's semantics, independent of the DFS order",
     "ids of any width":
         "all models use Nat ids; that the code's visited/seen sets are 64-bit and no id is narrowed: extracted facts Tie.order_visited_sets_64bit, "
         "Tie.order_no_id_narrowing, Tie.order_visited_set_sites (decide); behaviour on ids congruent mod 2^32 / 2^16 and >= 2^63: tie (id alphabets in c17seq, c17pat, c17flt, c17bf)",
@@ -95,7 +99,7 @@ CLAUSES = {
         "extractor (syntactic skeleton of BreadthFirst / BufferedPipe / Submit / Receive, glue tables) closes the assumptions about statement order by decide. "
         "Also searched only: composition of the stateful library filters/collectors with BreadthFirst (c17flt); which error value is returned; nil on cancellation; "
         "wall-clock promptness; real goroutine exit; the PathSegment.size roll-up race (observation under -race); FilteredSkipLimit's descend answers; "
-        "an independent spec for terminals and intermediary paths (acyclic node sets have one: acyclicNodes_reachable_spec); LightweightDriver and ops.Operation[T] (not modelled, exempt by name)",
+        "an independent spec for intermediary paths (acyclic node sets and terminals have one: acyclicNodes_reachable_spec, terminals_reachable_spec); LightweightDriver and ops.Operation[T] (not modelled, exempt by name)",
     "named assumptions":
         "numWorkers >= 1; the driver is a finite tree (pure function of the segment), one injected fault per run in the tie; Go channel/select/context/atomic/WaitGroup "
         "semantics as atomic rendezvous and atomic counters; the scheduler eventually runs an enabled goroutine; gammazero/deque is a list; unbounded memory for the "
@@ -374,12 +378,13 @@ MANIFEST = {
             "worker error branch, commit b692f10, which is the only source shape the order-fact tie accepts; the pre-repair hang is kept as a refutation theorem about the old "
             "definition). Sequential helpers: for every graph, node/descent/path filter, skip and limit the stack loop returns the skip/limit window of the filtered DFS candidate "
             "sequence; for TraversePaths that sequence equals the recursive definition of the maximal acyclic filtered paths on every finite graph, and for AcyclicTraverseNodes "
-            "(no user DescentFilter, DFS finished) the candidates are exactly the accepted nodes reachable over >= 1 edge (c17_full is unconditional on the models). Also proved (anchors outside the statement): LimitSkipTracker window, range partition and LTS of parallelNodeQuery (termination when a worker survives), "
+            "(no user DescentFilter, DFS finished) the candidates are exactly the accepted nodes reachable over >= 1 edge, and AcyclicTraverseTerminals (no user filters, DFS finished) reports exactly the re-reached nodes and the reached sinks (c17_full is unconditional on the models). Also proved (anchors outside the statement): LimitSkipTracker window, range partition and LTS of parallelNodeQuery (termination when a worker survives), "
             "FilteredSkipLimit visited set, pattern.Driver expansion = recursive semantics. See coverage.clause_map for clause -> theorem -> hypotheses.",
     "note": "Searched only (tie): that the models are the Go code (nine differential suites + spec monitors + syntactic order/glue facts by decide); composition of the library's "
             "stateful filters and collectors with BreadthFirst (c17flt; per-call atomicity is C13's checkedAdd_atomic); which error value is returned and nil on cancellation; "
             "wall-clock promptness and the runtime really exiting goroutines (hang detector, goroutine-leak oracle with the caller's context kept alive); an independent spec "
-            "for terminals / intermediary paths (their spec is the tracker-free DFS candidate sequence; acyclic node sets = accepted reachable nodes is proved); "
+            "for intermediary paths (spec = the tracker-free DFS candidate sequence; acyclic node sets = accepted reachable nodes and the order-free counting "
+            "characterisation of terminals are proved); "
             "FilteredSkipLimit descend answers; the "
             "PathSegment.size roll-up race (observation under -race). Observations outside the statement: O2 (parallelNodeQuery blocks when every worker failed), O3/O4 "
             "(pattern.Driver optional-step duplicates, direction change). No open finding: C17:BreadthFirst:swallow-hang is fixed (b692f10). Trusted: Lean kernel, Go "
